@@ -56,7 +56,10 @@ type op struct {
 type caseA struct {
 	Sidecar bool `json:"sidecar"`
 	NoOTmp  bool `json:"no_otmpfile"`
-	Ops     []op `json:"ops"`
+	// SrcMPU: the object that part copies read from was itself completed from a multipart upload (its ETag is not the
+	// MD5 of its bytes)
+	SrcMPU bool `json:"src_mpu,omitempty"`
+	Ops    []op `json:"ops"`
 }
 
 type part struct {
@@ -240,7 +243,20 @@ func execA(c caseA) (st stats, err error) {
 				r, err = cl.Call("PUT", path(u.Key), q, nil, data())
 			} else {
 				if !srcPut {
-					if pr := cl.MustCall("PUT", "/"+b+"/copysrc", nil, nil, srcObj.Data()); !pr.OK() {
+					if c.SrcMPU {
+						ir := cl.MustCall("POST", "/"+b+"/copysrc", s3c.Q("uploads", ""), nil, nil)
+						var ini s3c.InitiateResult
+						if !ir.OK() || s3c.ParseXML(ir, &ini) != nil {
+							return st, fmt.Errorf("SETUP: copy source upload: %v", ir)
+						}
+						p1 := cl.MustCall("PUT", "/"+b+"/copysrc", s3c.Q("partNumber", "1", "uploadId", ini.UploadId), nil, srcObj.Data())
+						if !p1.OK() {
+							return st, fmt.Errorf("SETUP: copy source part: %v", p1)
+						}
+						if cr := cl.MustCall("POST", "/"+b+"/copysrc", s3c.Q("uploadId", ini.UploadId), nil, s3c.CompleteXML([]s3c.Part{{PartNumber: 1, ETag: s3c.ETag(p1.Header.Get("ETag"))}})); !cr.OK() || strings.Contains(string(cr.Body), "<Error>") {
+							return st, fmt.Errorf("SETUP: copy source completion: %v", cr)
+						}
+					} else if pr := cl.MustCall("PUT", "/"+b+"/copysrc", nil, nil, srcObj.Data()); !pr.OK() {
 						return st, fmt.Errorf("SETUP: put copy source: %v", pr)
 					}
 					srcPut = true
@@ -869,6 +885,7 @@ func TestC08A(t *testing.T) {
 	ev.Check(t, "C08A", func(t *rapid.T) {
 		var c caseA
 		c.Sidecar = rapid.IntRange(0, 3).Draw(t, "sidecar") == 0
+		c.SrcMPU = rapid.IntRange(0, 2).Draw(t, "src_mpu") == 0
 		c.NoOTmp = rapid.IntRange(0, 3).Draw(t, "no_otmp") == 0
 		c.Ops = programGen().Draw(t, "ops")
 		ev.Trace("C08A", c)
